@@ -11,7 +11,7 @@ for i,a in enumerate(sys.argv):
 wt = f'/tmp/seed-{cid}'; out = f'/tmp/seed-{cid}-out'
 env = dict(os.environ, GOFLAGS='-mod=mod', GOPROXY='off', GOSUMDB='off', GOTOOLCHAIN='local')
 def run(cmd, cwd=None, timeout=3600):
-    p = subprocess.run(cmd, shell=True, cwd=cwd, env=env, stdout=subprocess.PIPE, stderr=subprocess.STDOUT, text=True, timeout=timeout)
+    p = subprocess.run(cmd, shell=True, cwd=cwd, env=env, stdout=subprocess.PIPE, stderr=subprocess.STDOUT, text=True, errors='replace', timeout=timeout)
     return p.returncode, p.stdout
 dst = f'/verif/seeded/{cid}'
 os.makedirs(dst, exist_ok=True)
